@@ -65,6 +65,20 @@ def rule_Y3(ctx) -> None:
                 problem = f"emits {emitted} but does not mark `typing` as imported ({eff})"
             elif key == "310" and "[" in res and ident[0].isupper() and ("collections.abc", ident) not in eff:
                 problem = f"emits {ident}[...] but does not import it from collections.abc ({eff})"
+            if not problem:
+                # forward references arrive quoted: the result must stay one well-formed annotation
+                # which arguments can be quoted is fixed by the call sites (models.py / template): optional, list and the
+                # parts of a union receive quoted references, a map key is always a scalar, the (async) iterables receive
+                # the already stripped RPC type
+                quoted_positions = {"optional": (0,), "list": (0,), "dict": (1,), "union": (0, 1)}.get(m, ())
+                qargs = [f'"{a}"' if i in quoted_positions else a for i, a in enumerate(args)]
+                try:
+                    qres, _ = shapes.apply(key, m, qargs)
+                    inner = qres[1:-1] if qres.startswith('"') and qres.endswith('"') else None
+                    if key == "310" and (inner is None or '"' in inner):
+                        problem = f"with quoted (forward-reference) arguments the result is {qres}: quotes nested inside the quoted annotation make the generated module a SyntaxError"
+                except AnalysisError as e:
+                    problem = None
             if problem:
                 ctx.refuted("Y3", name, problem[:60], mod.loc(meths[m][0]), f"{name}: {problem}", f"a schema using {m} under typing.{key}")
             else:
@@ -196,3 +210,6 @@ def run(ctx) -> None:
     rule_Y5(ctx)
     rule_Y6(ctx)
     rule_P3(ctx, "pydantic")
+    from . import presence
+    ctx.rules_run.append("D1")
+    presence.rule_D1(ctx)     # the pydantic mode declares every oneof member optional=True: the runtime's unset/selection logic must cope with that
